@@ -648,5 +648,48 @@ def _rel_edges(prog):
     return rel_edges(prog)
 
 
+def pd_exact(prog: Program) -> RuleResult:
+    """'A property implies its inverse, a sub-property its super-property' - never the other way round.  Where an inferred fact is written is
+    decided by looking up, on the target's type, the field managed by the descriptor *class* of the inferred property.  The match has to be
+    exact: a field managed by a sub-property of that class (CEO.head_of: HeadOf < WorksFor < MemberOf, looked up for MemberOf) is a
+    different, stronger property - writing the inverse there asserts the sub-property, from which the closure derives more facts that
+    nothing stated."""
+    r = RuleResult("PD-EXACT", "the field of a descriptor class is the field managed by exactly that class", floor=1)
+    pd = prog.cls("property_descriptor.PropertyDescriptor")
+    f = pd.methods.get("get_associated_field_of_domain_type")
+    if f is None:
+        raise AnalysisError("PD-EXACT: PropertyDescriptor.get_associated_field_of_domain_type vanished")
+    clsp = f.params[0]
+    tests = []
+    for x in walk_local(f.node):
+        if isinstance(x, ast.Lambda):
+            tests.append((x, x.body))
+    for x in ast.walk(f.node):
+        if isinstance(x, ast.FunctionDef) and x is not f.node:
+            tests += [(x, st.value) for st in ast.walk(x) if isinstance(st, ast.Return) and st.value is not None]
+        if isinstance(x, ast.comprehension):
+            tests += [(x, t) for t in x.ifs]
+    rel = [(h, t) for h, t in tests if "property_descriptor" in src(t)]
+    if not rel:
+        raise AnalysisError("PD-EXACT: the lookup no longer tests the descriptor of a field")
+
+    def exact(t) -> bool:
+        # type(<...>.property_descriptor) is cls   /  ... == cls   /  <...>.property_descriptor.__class__ is cls
+        if not (isinstance(t, ast.Compare) and len(t.ops) == 1 and isinstance(t.ops[0], (ast.Is, ast.Eq))):
+            return False
+        sides = [t.left, t.comparators[0]]
+        has_cls = any(isinstance(s_, ast.Name) and s_.id == clsp for s_ in sides)
+        has_type = any((isinstance(s_, ast.Call) and isinstance(s_.func, ast.Name) and s_.func.id == "type" and s_.args and "property_descriptor" in src(s_.args[0]))
+                       or (isinstance(s_, ast.Attribute) and s_.attr == "__class__" and "property_descriptor" in src(s_.value)) for s_ in sides)
+        return has_cls and has_type
+
+    bad = [t for _, t in rel if not (exact(t) or (isinstance(t, ast.BoolOp) and isinstance(t.op, ast.And) and any(exact(v) for v in t.values)))]
+    r.check(not bad, f"{f.short}#exact-descriptor-class", site(f, bad[0]) if bad else site(f, rel[0][1]), src((bad or [rel[0][1]])[0])[:100],
+            "the field is matched by the exact class of its descriptor",
+            f"`{src(bad[0])[:80] if bad else ''}` also accepts fields managed by a subclass of the descriptor class: a type that declares only a specialisation of the inverse property "
+            f"(no field of the property itself) gets the inverse written into the specialised field - a sub-property fact nobody asserted, and everything derived from it")
+    return r
+
+
 def run(prog: Program, tier: str) -> List[RuleResult]:
-    return [guard(lambda: _rel_edges(prog)), guard(lambda: _sg_purge(prog)), guard(lambda: pd_field(prog)), guard(lambda: pd_first_assign(prog)), guard(lambda: pd_closure(prog)), guard(lambda: pd_owner(prog)), guard(lambda: pd_supers(prog)), guard(lambda: _mc_eq(prog)), guard(lambda: pd_replace(prog)), guard(lambda: pd_init(prog)), guard(lambda: user_truth(prog, ["property_descriptor.property_descriptor", "property_descriptor.monitored_container", "property_descriptor.property_descriptor_relation"], 2))]
+    return [guard(lambda: _rel_edges(prog)), guard(lambda: _sg_purge(prog)), guard(lambda: pd_field(prog)), guard(lambda: pd_first_assign(prog)), guard(lambda: pd_closure(prog)), guard(lambda: pd_owner(prog)), guard(lambda: pd_supers(prog)), guard(lambda: _mc_eq(prog)), guard(lambda: pd_replace(prog)), guard(lambda: pd_init(prog)), guard(lambda: user_truth(prog, ["property_descriptor.property_descriptor", "property_descriptor.monitored_container", "property_descriptor.property_descriptor_relation"], 2)), guard(lambda: pd_exact(prog))]
